@@ -364,6 +364,25 @@ theorem buildGraph_eq {pb : Problem} (hw : WellFormed pb) :
   unfold graph
   rw [pairs_eq]
   unfold buildGraph
-  exact this
+  refine Eq.trans ?_ this
+  show List.foldlM _ (gst pb []) (cells pb) = _
+  congr 1
+  funext g p
+  simp only [gstep, downPart, rightPart]
+  cases tableGet pb.problem (p.1 : Int) (p.2 : Int) with
+  | error e => rfl
+  | ok v =>
+    simp only [ok_bind]
+    split
+    · split
+      · cases tableGet pb.problem ((p.1 : Int) + 1) (p.2 : Int) with
+        | error e => rfl
+        | ok v2 =>
+          simp only [ok_bind]
+          split
+          · simp only [bind_assoc]
+          · rfl
+      · rfl
+    · rfl
 
 end Cspuz.Proofs.C11FivecellsA
